@@ -278,6 +278,9 @@ EventuallyEnd == <>(ends = 1)
 \* no deadlock before End: if End was not emitted something is enabled
 NoStuck == (ends = 0) => ENABLED Next
 
+\* state constraint for runs that only need the inputs (every initial state and its first steps)
+DepthOne == depth <= 1
+
 \* ---- projection used by the replay driver ------------------------------------
 Proj == [next |-> next, inFlight |-> inFlight, schedDone |-> schedDone, endSent |-> endSent,
          verifyPending |-> verifyPending, resendPending |-> resendPending,
